@@ -354,6 +354,38 @@ func (s *Server) referrerAdd(repo store.Repo, subject digest.Digest, desc types.
 
 // referrerDelete removes a referrer entry from a subject.
 // The caller must hold referrerMu.
+// referrerDeleteUnknownSubject removes a manifest from every referrers response that lists it.
+// It is used when the manifest content is no longer available to look up the subject.
+func (s *Server) referrerDeleteUnknownSubject(repo store.Repo, index types.Index, desc types.Descriptor) error {
+	errs := []error{}
+	for _, resp := range index.Manifests {
+		if resp.MediaType != types.MediaTypeOCI1ManifestList || resp.Annotations == nil || resp.Annotations[types.AnnotReferrerSubject] == "" {
+			continue
+		}
+		subject, err := digest.Parse(resp.Annotations[types.AnnotReferrerSubject])
+		if err != nil {
+			continue
+		}
+		rdr, err := repo.BlobGet(resp.Digest)
+		if err != nil {
+			continue
+		}
+		refResp := types.Index{}
+		err = json.NewDecoder(rdr).Decode(&refResp)
+		_ = rdr.Close()
+		if err != nil {
+			continue
+		}
+		for _, d := range refResp.Manifests {
+			if d.Digest == desc.Digest {
+				errs = append(errs, s.referrerDelete(repo, subject, desc))
+				break
+			}
+		}
+	}
+	return errors.Join(errs...)
+}
+
 func (s *Server) referrerDelete(repo store.Repo, subject digest.Digest, desc types.Descriptor) error {
 	// get the index.json
 	index, err := repo.IndexGet()
